@@ -459,7 +459,10 @@ def _colr0_layers(color_glyph: ColorGlyph, root: Paint, palette: Sequence[Color]
     # Results for complex structures will be suboptimal :)
     ufo = color_glyph.ufo
     layers = []
-    for context in root.breadth_first():
+    # depth first: layers must come out in paint order. Breadth first would emit a
+    # reused (transformed, so nested one level deeper) shape of an opacity group
+    # after its untransformed siblings.
+    for context in root.depth_first():
         if context.paint.format != PaintGlyph.format:  # pytype: disable=attribute-error
             continue
         paint_glyph: PaintGlyph = (
